@@ -79,6 +79,17 @@ pub fn check(cfg: &Config, ops: &[Op]) -> (Vec<(String, String)>, u64, bool) {
             *points += 1;
             let want = &e.abs[s.idx()].rs;
             *seen_some |= g.rs.is_some();
+            // a key supplied although the pattern does not pre-share it may be shown or withheld until the
+            // pattern conveys the real one (the property only speaks of keys the pattern gives the party)
+            let extra_supplied_not_yet_conveyed = {
+                let pat = &e.proto.pattern;
+                let supplied_extra = e.cfg.rs_pub[s.idx()].is_some() && !pat.role_needs_remote_static(s.is_init());
+                let conveyed = pat.remote_static_msg(s.is_init()).map_or(false, |k| e.abs[s.idx()].pos > k);
+                supplied_extra && !conveyed
+            };
+            if extra_supplied_not_yet_conveyed && g.rs.is_none() {
+                continue;
+            }
             if &g.rs != want {
                 let phase = ["HandshakeState", "TransportState", "StatelessTransportState"][usize::from(g.phase)];
                 let what = match (&g.rs, want) {
